@@ -197,7 +197,7 @@ theorem read_cut_writeAll (hashOf : PyStr → List (PyStr × PyStr) → Nat) (ob
         obtain ⟨st2, f2⟩ := r2
         simp [h1, h2] at hw
         obtain ⟨rfl, rfl⟩ := hw
-        obtain ⟨⟨d, vals, rfl⟩, hds, hpv, hrest⟩ := hok
+        obtain ⟨hobj, hds, hpv, hrest⟩ := hok
         obtain ⟨hreg, hh1⟩ := write_registry st st1 _ f1 h1
         rw [streamOf_append]
         by_cases hk : (streamOf f1).length ≤ k
@@ -207,7 +207,7 @@ theorem read_cut_writeAll (hashOf : PyStr → List (PyStr × PyStr) → Nat) (ob
               (fun b hb => hsz b (by simp [hb]))
           refine ⟨n + 1, e, by simp; omega, he, ?_, ?_, ?_, ?_⟩
           · rw [List.take_append, List.take_of_length_le hk]
-            have hstep := read_write hashOf st st1 d vals f1 ((streamOf f2).take (k - (streamOf f1).length))
+            have hstep := read_write hashOf st st1 o hobj f1 ((streamOf f2).take (k - (streamOf f1).length))
               (fuel + f2.length + 1) h1 hhdr hds (by rw [hreg]; exact hpv) (fun b hb => hsz b (by simp [hb]))
             rw [List.length_append,
               show fuel + (f1.length + f2.length) + 1 = (fuel + f2.length + 1) + f1.length by omega, hstep, hrd]
@@ -233,8 +233,8 @@ theorem read_cut_writeAll (hashOf : PyStr → List (PyStr × PyStr) → Nat) (ob
           refine ⟨0, e, by simp, he, ?_, ?_, ⟨st, [], by simp [writeAll], by simp [streamOf]⟩, ?_⟩
           · rw [List.take_append_of_le_length (by omega)]
             rw [List.length_append, List.length_append, List.length_cons, List.length_nil, hdl,
-              show fuel + ((newDescs st.registry (descsOf (PV.record d vals))).2.length + (0 + 1) + f2.length) + 1 =
-                (fuel + f2.length + 1) + (newDescs st.registry (descsOf (PV.record d vals))).2.length + 1 by omega,
+              show fuel + ((newDescs st.registry (descsOf o)).2.length + (0 + 1) + f2.length) + 1 =
+                (fuel + f2.length + 1) + (newDescs st.registry (descsOf o)).2.length + 1 by omega,
               hrd]
             simp [rvOfList]
           · intro hlen
